@@ -13,7 +13,7 @@ import (
 )
 
 var profile = envh.Profile{MaxHooks: 5, MaxReqs: 14, FailP: 120, BodyFailP: 150, IllegalP: 300, TaskHookP: 150, FloatP: 150,
-	TeardownP: 80, ControlP: 600, DestroyHooks: true}
+	TeardownP: 80, ControlP: 600, DestroyHooks: true, OverlapP: 90}
 
 // exhaustive part: every (state, event) cell reached by a fixed path, requested both ways
 func cells() []fw.Case {
@@ -48,12 +48,71 @@ func cells() []fw.Case {
 	return cs
 }
 
+// overlapping pairs, exhaustively: in every live state and in ERROR, a first request that gets as far as
+// its critical section (every legal transition with a passing or failing body, a teardown) and, arriving
+// while it is in there, every kind of second request (teardown with/without force, every API event
+// through the glue and through TryTransition, GO_ERROR)
+func overlapCells() []fw.Case {
+	path := map[string][][2]string{
+		"STANDBY":    {},
+		"DEPLOYED":   {{"T", "DEPLOY"}},
+		"CONFIGURED": {{"T", "DEPLOY"}, {"T", "CONFIGURE"}},
+		"RUNNING":    {{"T", "DEPLOY"}, {"T", "CONFIGURE"}, {"T", "START_ACTIVITY"}},
+		"ERROR":      {{"T", "GO_ERROR"}},
+	}
+	legal := map[string][]string{
+		"STANDBY": {"DEPLOY", "GO_ERROR"}, "DEPLOYED": {"CONFIGURE", "GO_ERROR"}, "CONFIGURED": {"RESET", "START_ACTIVITY", "GO_ERROR"},
+		"RUNNING": {"STOP_ACTIVITY", "GO_ERROR"}, "ERROR": {},
+	}
+	api := []string{"DEPLOY", "CONFIGURE", "RESET", "START_ACTIVITY", "STOP_ACTIVITY"}
+	var cs []fw.Case
+	for _, st := range []string{"STANDBY", "DEPLOYED", "CONFIGURED", "RUNNING", "ERROR"} {
+		var firsts []*sx.Node
+		for _, ev := range legal[st] {
+			for _, ok := range []bool{true, false} {
+				firsts = append(firsts, sx.L(sx.A("T"), sx.A(ev), sx.B(ok), sx.B(false)))
+			}
+		}
+		for _, force := range []bool{true, false} {
+			firsts = append(firsts, sx.L(sx.A("D"), sx.B(force), sx.B(true), sx.B(true)))
+		}
+		var seconds []*sx.Node
+		for _, force := range []bool{true, false} {
+			seconds = append(seconds, sx.L(sx.A("D"), sx.B(force), sx.B(true), sx.B(true)))
+		}
+		for _, ev := range api {
+			seconds = append(seconds, sx.L(sx.A("C"), sx.A(ev), sx.B(true), sx.B(false)), sx.L(sx.A("T"), sx.A(ev), sx.B(true), sx.B(false)))
+		}
+		seconds = append(seconds, sx.L(sx.A("T"), sx.A("GO_ERROR"), sx.B(true), sx.B(false)))
+		for _, q1 := range firsts {
+			for _, q2 := range seconds {
+				reqs := sx.L()
+				for _, p := range path[st] {
+					reqs.Add(sx.L(sx.A(p[0]), sx.A(p[1]), sx.B(true), sx.B(false)))
+				}
+				reqs.Add(sx.L(sx.A("P"), q1, q2))
+				// hooks that make "the second request executed something" observable
+				hooks := sx.L(
+					sx.L(sx.I(0), sx.A("call"), sx.B(false), sx.A("DESTROY"), sx.I(0), sx.A("DESTROY"), sx.I(0), sx.L()),
+					sx.L(sx.I(1), sx.A("call"), sx.B(false), sx.A("leave_"+st), sx.I(0), sx.A("leave_"+st), sx.I(0), sx.L()),
+					sx.L(sx.I(2), sx.A("call"), sx.B(false), sx.A("leave_DONE"), sx.I(0), sx.A("leave_DONE"), sx.I(0), sx.L()))
+				if q2.At(0).Str() != "D" {
+					ev := q2.At(1).Str()
+					hooks.Add(sx.L(sx.I(3), sx.A("call"), sx.B(false), sx.A("before_"+ev), sx.I(0), sx.A("before_"+ev), sx.I(0), sx.L()))
+				}
+				cs = append(cs, fw.Case{Input: sx.L(hooks, reqs, sx.I(1)).String(), Tags: []string{"overlap-cell", "overlapping-requests"}})
+			}
+		}
+	}
+	return cs
+}
+
 func generate(tier string, r *rng.R) []fw.Case {
 	n := 250
 	if tier == "thorough" {
 		n = 4000
 	}
-	cs := cells()
+	cs := append(cells(), overlapCells()...)
 	for i := 0; i < n; i++ {
 		cs = append(cs, envh.GenCase(r.Fork(), profile))
 	}
